@@ -24,11 +24,12 @@ type c17Rec struct {
 }
 
 type c17Case struct {
-	Mode  string   `json:"mode"` // roundtrip, genbank
-	Recs  []c17Rec `json:"recs,omitempty"`
-	CRLF  bool     `json:"crlf,omitempty"`
-	Deliv int      `json:"deliv,omitempty"` // roundtrip: how the reader hands the bytes over (deliveryNames)
-	Fail  int      `json:"fail,omitempty"`  // roundtrip: before anything else records are written to a writer that takes only this many bytes and then fails
+	Mode   string   `json:"mode"` // roundtrip, genbank
+	Recs   []c17Rec `json:"recs,omitempty"`
+	CRLF   bool     `json:"crlf,omitempty"`
+	Deliv  int      `json:"deliv,omitempty"`  // roundtrip: how the reader hands the bytes over (deliveryNames)
+	Shared bool     `json:"shared,omitempty"` // roundtrip: the residues of all records are windows of one buffer (overlapping by Len/2, spare capacity behind each)
+	Fail   int      `json:"fail,omitempty"`   // roundtrip: before anything else records are written to a writer that takes only this many bytes and then fails
 	// genbank mode
 	Version string `json:"version,omitempty"`
 	Def     string `json:"definition,omitempty"`
@@ -147,6 +148,7 @@ func c17Check(c c17Case) *Violation {
 	case "roundtrip":
 		var buf bytes.Buffer
 		var werr error
+		sharedDamage := ""
 		if pi := guard(func() {
 			if c.Fail > 0 {
 				// an earlier write of this process that went wrong half-way (disk full, closed pipe): whatever it left
@@ -156,6 +158,29 @@ func c17Check(c c17Case) *Violation {
 				bad.WriteSeq(seqio.GenBank{Fields: seqio.GenBankFields{LocusName: "LOST", Molecule: gts.DNA, Topology: gts.Linear, Version: "LOST.1", Definition: "lost"}, Origin: seqio.NewOrigin(bytes.Repeat([]byte("g"), 150))})
 			}
 			w := seqio.NewWriter(&buf, seqio.FastaFile)
+			if c.Shared {
+				// tiles of one sequence: every record's residues are a window of the same buffer, the next window begins
+				// inside or right behind this one - writing a record may only read its window
+				var pool []byte
+				offs := make([]int, len(c.Recs))
+				for i, r := range c.Recs {
+					offs[i] = len(pool)
+					pool = append(pool, r.residues()...)
+				}
+				pool = append(pool, bytes.Repeat([]byte("#"), 80)...)
+				snapshot := append([]byte(nil), pool...)
+				for i, r := range c.Recs {
+					if _, err := w.WriteSeq(seqio.Fasta{Desc: r.Desc, Data: pool[offs[i] : offs[i]+r.Len]}); err != nil {
+						werr = err
+					}
+					if !bytes.Equal(pool, snapshot) {
+						k := firstDiff(string(pool), string(snapshot))
+						sharedDamage = fmt.Sprintf("writing record %d (%d residues, a window of a longer buffer) changed byte %d of that buffer (%d bytes behind the window) from %q to %q", i, r.Len, k, k-(offs[i]+r.Len), snapshot[k], pool[k])
+						return
+					}
+				}
+				return
+			}
 			for _, r := range c.Recs {
 				if _, err := w.WriteSeq(seqio.Fasta{Desc: r.Desc, Data: r.residues()}); err != nil {
 					werr = err
@@ -163,6 +188,9 @@ func c17Check(c c17Case) *Violation {
 			}
 		}); pi != nil {
 			return panicViolation("FASTA writer", pi)
+		}
+		if sharedDamage != "" {
+			return viol("argument-modified", "%s", sharedDamage)
 		}
 		if werr != nil {
 			return viol("write", "writer failed: %v", werr)
@@ -369,6 +397,7 @@ func c17Gen(t *rapid.T) c17Case {
 	}
 	n := rapid.IntRange(1, 5).Draw(t, "nrec")
 	c := c17Case{Mode: "roundtrip", CRLF: rapid.Bool().Draw(t, "crlf")}
+	c.Shared = rapid.IntRange(0, 3).Draw(t, "shared") == 0
 	if rapid.IntRange(0, 3).Draw(t, "failedbefore") == 0 {
 		c.Fail = rapid.SampledFrom([]int{1, 5, 12, 13, 14, 70, 84, 85, 200, 311}).Draw(t, "fail")
 	}
@@ -485,6 +514,17 @@ func TestC17(t *testing.T) {
 		}
 	}
 	edt.done(true)
+	// windows of one buffer: records of 0..72 and 139..141 residues cut from one sequence one after the other
+	esh := enumPart(t, c17Prop, st, "windows-of-one-buffer")
+	for n := 0; n <= 141; n++ {
+		if n > 72 && n < 139 {
+			continue
+		}
+		if !esh.try(c17Case{Mode: "roundtrip", Shared: true, Recs: []c17Rec{{Desc: "t0", Len: n, Seed: 3, Step: 1}, {Desc: "t1", Len: n, Seed: 9, Step: 2}, {Desc: "t2", Len: 1, Seed: 1, Step: 1}, {Desc: "t3", Len: 70, Seed: 2, Step: 1}}}) {
+			return
+		}
+	}
+	esh.done(true)
 	// after a failed write: the same round trips in a process whose previous FASTA write broke off after k bytes
 	efw := enumPart(t, c17Prop, st, "after-failed-write")
 	for _, k := range []int{1, 2, 12, 13, 14, 15, 83, 84, 85, 86, 155, 156, 226, 300, 310, 311, 312, 313, 314, 400} {
